@@ -85,3 +85,27 @@ Definition nn_key_arm (fl : byte) : list instr := [IOp1 O_CALL x00; IOp1 O_CHECK
 Definition nonnative_taproot_lock (root : bytes) (fl : byte) : bytes :=
   encode [nn_def root; IOp0 O_DUP; IOp0 O_SIZE; P0 x20; IOp0 O_EQUAL; IIfElse nn_script_arm (nn_key_arm fl)].
 
+(* make_delegate_key_chain_lock / make_delegate_key_chain_witness *)
+Definition chain_call_arm : list instr := [RC [x64]; IOp1 O_CALL x00].
+Definition chain_sig_arm (fl : byte) : list instr := [RC [x64]; IOp1 O_CHECK_SIG fl].
+Definition chain_body (fl : byte) : list instr :=
+  [WC [x72] x01;
+   P0 x29; IOp0 O_SPLIT; WC [x73] x01;
+   IOp0 O_DUP;
+   P0 x28; IOp0 O_SPLIT; WC [x63] x01;
+   P0 x24; IOp0 O_SPLIT; WC [x65] x01;
+   P0 x20; IOp0 O_SPLIT; WC [x62] x01; WC [x64] x01;
+   RC [x62]; IOp0 O_CHECK_TIMESTAMP_VERIFY;
+   RC [x65]; IOp0 O_CHECK_TIMESTAMP; IOp0 O_NOT; IOp0 O_VERIFY;
+   RC [x73]; IOp0 O_SWAP2; RC [x72]; IOp0 O_CHECK_SIG_STACK; IOp0 O_VERIFY;
+   RC [x63]; IOp0 O_AND;
+   IIfElse chain_call_arm (chain_sig_arm fl)].
+
+Definition delegate_key_chain_lock (root : bytes) (fl : byte) : bytes :=
+  encode [IDef x00 (chain_body fl); P1 root; IOp1 O_CALL x00].
+
+(* make_delegate_key_chain_witness(prvkey, certs, ...): "push sig ; false ; push certs[0] ; true ; push certs[1] ; ..."
+   ([c0 :: cs] is the Python list: c0 authorises the signing key, the LAST one is signed by the root) *)
+Definition delegate_key_chain_witness (sig c0 : bytes) (cs : list bytes) : bytes :=
+  encode (P1 sig :: IOp0 O_FALSE :: P1 c0 :: flat_map (fun c => [IOp0 O_TRUE; P1 c]) cs).
+
